@@ -35,6 +35,14 @@ def c01(ctx):
     ctx.exhaustive = False
 
 
+def mc_interp(ctx, family, stride):
+    """Small-step interpreter machine vs. the big-step semantics and its instrumented form (entry sequences)."""
+    C.model_check(ctx, "MC_Interp", {"Dev": "{}", "Tier": ctx.tier, "Family": family, "Stride": stride, "Seed": ctx.seed,
+                                     "Exprs": "<- ExprsV", "Docs0": "<- DocsV"},
+                  invariants=["ResultAllowed", "NeverStuck", "Bounded", "ShortCircuit", "TrailOK"], spec="Spec",
+                  name="MC_Interp_%s" % family, workers=C.NCPU, extra_cfg=["VIEW View"], timeout=3000)
+
+
 def negative(ctx, family, dev, strides=(1, 50)):
     """Negative control of the model: with the deviation switch on, the family's theorem must fail."""
     c = {"Dev": '{"%s"}' % dev, "Tier": ctx.tier, "Family": family, "NBlocks": 64, "Stride": strides[0], "Stride3": strides[1], "Seed": ctx.seed}
@@ -51,6 +59,7 @@ def c02(ctx):
                 "multi-select, function argument) x documents with empty / heterogeneous / null-containing arrays and objects; " + NT_DEFAULT)
     eval_family(ctx, "C02", {Q: (7, 1), T: (1, 1)})
     negative(ctx, "C02", "PresizedWildcard", (3, 1))
+    mc_interp(ctx, "C02", 60 if ctx.tier == Q else 6)
     C.trace_api(ctx, {"outcome", "compile-rejected"}, n=600 if ctx.tier == Q else 6000)
     ctx.exhaustive = False
 
@@ -61,6 +70,7 @@ def c07(ctx):
                 "read from the document and inside filter conditions, all pairs of V7 as documents; " + NT_DEFAULT)
     eval_family(ctx, "C07", {Q: (1, 101), T: (1, 5)})
     eval_family(ctx, "C07d", {Q: (1, 1), T: (1, 1)})
+    mc_interp(ctx, "C07d", 1)        # ShortCircuit: the right operand is entered only when needed
     ctx.exhaustive = False
 
 
@@ -398,6 +408,7 @@ def c09(ctx):
                 "distinct by (source text, document)")
     eval_family(ctx, "C09", {Q: (3, 1), T: (1, 1)})
     eval_family(ctx, "C09n", {Q: (1, 1), T: (1, 1)})
+    mc_interp(ctx, "C09n", 1)
     C.trace_api(ctx, {"outcome"}, n=800 if ctx.tier == Q else 8000)
     if ctx.tier == T:
         negative(ctx, "C09", "AvgEmptyNaN")
